@@ -4,7 +4,8 @@ from .. import common, sched_gen, sched_impl, sched_suite
 PROPERTY = "C07"
 LEAN_MODULE = "IsobarV.Props.C07"
 THEOREMS = ["IsobarV.C07." + t for t in ("tick_phase_order", "phase_one_only_offs", "event_phase_in_order", "tick_decomposes",
-    "event_phase_is_merge", "non_interference", "solo_run", "prepared_pointwise")] + \
+    "event_phase_is_merge", "non_interference", "solo_run", "prepared_pointwise", "static_idempotent", "static_never_skips",
+    "static_hold", "static_keeps", "globals_get_set")] + \
     ["IsobarV.Sched." + t for t in ("tickTrack_solo", "phaseTracks_solo", "foldl_fireOne_tracks")]
 RULE = ("(a) 1-6 tracks with separate streams on distinct channels, coinciding and non-coinciding events, random scheduling order, "
         "legato repeats (gate = 1): real Timeline vs Lean model on the ordered calls of every tick; (b) merge oracle on the "
@@ -173,7 +174,22 @@ def static_cases(ctx):
             if abs(t - round(j / tpb, 5)) > 1e-9:
                 bad = ("C07:current-time", "PCurrentTime read %r at tick %d (tpb %d)" % (t, j, tpb))
                 break
-        ctx.case(("static", tpb, hold_t, tuple(vals), nreaders, n), nontrivial=nreaders >= 2, validated=False,
+        # the same reads through the Lean state machine (exact rationals; only where the code's float times are exact)
+        validated = False
+        if ctx.model_available and (tpb & (tpb - 1) == 0) and not bad and allreads:
+            from fractions import Fraction
+            lines = ["new %d/%d" % (hold_t, tpb)]
+            for (sq, j, k, v, t) in allreads:
+                f = Fraction(round(j / tpb, 5))
+                lines.append("read %d/%d" % (f.numerator, f.denominator))
+            out = ctx.driver("static", lines)[1:]
+            got = [v - 100 for (sq, j, k, v, t) in allreads]
+            mdl = [int(x) for x in out]
+            validated = True
+            if got != mdl and all(g < len(vals) for g in mdl):
+                ctx.disagreement("static pattern: implementation returned elements %s, the model %s (tpb %d, hold %d ticks)" % (got[:12], mdl[:12], tpb, hold_t),
+                                 {"suite": "static", "tpb": tpb, "hold_ticks": hold_t, "lines": lines})
+        ctx.case(("static", tpb, hold_t, tuple(vals), nreaders, n), nontrivial=nreaders >= 2, validated=validated,
                  sample={"static": {"tpb": tpb, "hold_ticks": hold_t, "readers": nreaders, "reads": sum(len(v) for v in reads.values())}} if i < 2 else None)
         ctx.count("static:readers=%d" % nreaders)
         if bad:
